@@ -78,13 +78,15 @@ DoHookV1 == 1 \in Gens /\ Step("HookV1", [x |-> 0], HookV1(st, C), FALSE)
 ClosesDeviating(dt) ==          \* a generation-2 surplus close, or a debt close whose gov amount differs from the payment
   \E i \in 1..Len(st.auc) : LET a == st.auc[i] IN
      a.gen = 2 /\ st.t + dt > a.endT /\ a.nb > 0 /\ st.tm /\ (a.kind = "surplus" \/ (a.kind = "debt" /\ a.lot # a.pay))
-DoBlock == 2 \in Gens /\ st.t < MaxT /\ \E dt \in {6, C.A2 + 1} :
+DoBlock == 2 \in Gens /\ st.t < MaxT /\ \E dt \in {C.A2 \div 2, C.A2 + 1} :
              Step("Block", [dt |-> dt], Block(st, C, dt, "gov"), ClosesDeviating(dt))
 DoAdvance == 2 \notin Gens /\ st.t < MaxT /\ \E dt \in {C.B1 + 1, C.A1 + 1} : Step("Advance", [dt |-> dt], [st EXCEPT !.t = @ + dt], FALSE)
 DoGeneric == Generic /\ st.n2 = 0 /\ LET r == StartGeneric(st, C, 7, 12) IN Step("StartGeneric", [lot |-> 7, minBid |-> 12], r.st, FALSE)
+DoSurplusFund == Flag = "dist" /\ LET r == SurplusFund(st, C) IN Step("SurplusFund", [x |-> 0], r.st, FALSE)
+DoSeed == Flag = "dist" /\ st.nf < 60 /\ st.bal["ext"][CMST] < 10040 /\ Step("SeedFees", [x |-> 13], SeedFees(st, 13), FALSE)
 DoMint == ~st.tm /\ Step("MintGenesis", [x |-> 0], MintGenesis(st).st, FALSE)
 
-Next == DoBid \/ DoBadBid \/ DoHookV1 \/ DoBlock \/ DoAdvance \/ DoGeneric \/ DoMint
+Next == DoBid \/ DoBadBid \/ DoHookV1 \/ DoBlock \/ DoAdvance \/ DoGeneric \/ DoMint \/ DoSurplusFund \/ DoSeed
 Spec == Init /\ [][Next]_vars
 
 StateBound == st.n1 + st.n2 <= MaxAuc /\ st.t <= MaxT
